@@ -38,6 +38,9 @@ impl InlineParser {
     // returns `true` if any rule reported success
     //
     pub fn skip_token(&self, state: &mut InlineState) {
+        #[cfg(markdown_it_verif)]
+        let _gauge = crate::verif::enter();
+
         let pos = state.pos;
         let mut ok = None;
 
@@ -80,6 +83,9 @@ impl InlineParser {
     // Generate tokens for input range
     //
     pub fn tokenize(&self, state: &mut InlineState) {
+        #[cfg(markdown_it_verif)]
+        let _gauge = crate::verif::enter();
+
         let end = state.pos_max;
 
         while state.pos < end {
